@@ -84,9 +84,36 @@ func isProtoPkg(p string) bool {
 	return strings.HasPrefix(p, "github.com/onosproject/onos-api/") || strings.HasPrefix(p, "github.com/openconfig/gnmi/proto")
 }
 
+// stripTypeArgs removes the type-argument lists of instantiated generic types from a key, so that
+// one contract on IndexedMap.Update serves every instantiation.
+func stripTypeArgs(key string) string {
+	var b strings.Builder
+	depth := 0
+	for i := 0; i < len(key); i++ {
+		switch key[i] {
+		case '[':
+			depth++
+			continue
+		case ']':
+			if depth > 0 {
+				depth--
+				continue
+			}
+		}
+		if depth == 0 {
+			b.WriteByte(key[i])
+		}
+	}
+	return b.String()
+}
+
 func callKey(c *ssa.CallCommon) string {
 	if c.IsInvoke() {
-		return c.Method.FullName()
+		k := c.Method.FullName()
+		if strings.Contains(k, "[") {
+			return stripTypeArgs(k)
+		}
+		return k
 	}
 	if fn := c.StaticCallee(); fn != nil {
 		return fn.String()
